@@ -81,7 +81,8 @@ Theorem C05_headers_parse :
   hdr_parses c_messageTypeCallResContinue [] /\ hdr_parses c_messageTypeCallReqContinue [].
 Proof. exact headers_parse. Qed.
 
-(* ONE OUTCOME (partial).  Wanted: for every input (also hostile fragments) the caller sees
+(* ONE OUTCOME (partial; superseded by C05_one_outcome / C05_success_is_denotation below, which
+   cover hostile fragments and arbitrary scripts).  Wanted: for every input (also hostile fragments) the caller sees
    exactly one terminal event, success xor error, and nothing after an error succeeds.
    Proved here: once the reader's error is set (any state, any input), every later argument
    read returns that error, no data, and does not change the state.  That every error CODE
@@ -207,3 +208,163 @@ Example C05_example_path :
   let silent := mkEv None None None in
   run_path 1000 1000 (map (fun w => mkStep w silent false) (filter has_deadline_exitb wait_sites)) 0 = Some 1000.
 Proof. vm_compute. reflexivity. Qed.
+
+(* ===================================================================================== *)
+(* HOSTILE INPUT (strengthening).  Definitions: Proofs/HostileP.v (r_step, r_trace, op_ok,     *)
+(* frag_parsed, tr_obs, completions, complete_ok, dfrag), Model/Budget.v, Gen/GenBudget.v.     *)
+(* ===================================================================================== *)
+From Verif Require Import Gen.GenBudget Model.Budget Proofs.PeerInputP Proofs.HostileP Proofs.BudgetP.
+
+(* every fragment the fragment parser accepts, for ANY payload bytes and message type, has a
+   known checksum type and a checksum field of that type's size: the premise of the next theorems *)
+Theorem C05_parser_output_parsed : forall mt payload f, bytes_ok payload = true ->
+  parse_frag_payload mt payload = (0, f) -> frag_parsed f.
+Proof. exact parsed_frag_parsed. Qed.
+
+(* ONE OUTCOME, for ANY fragment list (any chunk structure, checksum fields, more-flags) whose
+   fragments passed the parser and ANY script of Begin / Read(n) / Close / helper reads (helper
+   buffer size > 0): the reader model never panics; every error code returned (anything but
+   nil and io.EOF) is also the reader's sticky error, and from the first error on every
+   operation returns that error and no data ([sticky]); at most one operation of the script
+   takes the reader into state Complete; and whenever the reader is Complete the fragments it
+   consumed form a well-formed message (each fragment has a chunk, the more-fragments flag is
+   set on all but the last, clear on the last) whose every checksum verified against the
+   running checksum of the first fragment's type. *)
+Theorem C05_one_outcome : forall fs ops, Forall frag_parsed fs -> Forall op_ok ops ->
+  exists t, r_trace ops (r_init fs) = Some t /\ length t = length ops /\
+    Forall (fun x => is_err (snd (fst x)) -> rs_err (snd x) = snd (fst x)) t /\
+    sticky (tr_obs t) /\
+    (completions (r_init fs) t <= 1)%nat /\
+    Forall (fun x => rs_state (snd x) = c_fragmentingReadComplete -> complete_ok fs (snd x)) t.
+Proof. exact hostile_reader. Qed.
+
+(* ... and Complete is absorbing: once there, every operation fails without handing out data *)
+Theorem C05_complete_absorbing : forall o st, op_ok o -> hs st -> rs_state st = c_fragmentingReadComplete ->
+  exists c st', r_step o st = Some ([], c, st') /\ is_err c /\ rs_state st' = c_fragmentingReadComplete /\ rs_in st' = rs_in st.
+Proof. exact complete_absorbing. Qed.
+
+(* the caller's three helper reads on a prefix of ANY fragment list: an error, or exactly the
+   outcome on the whole list (fragments that follow never turn a success into something else) *)
+Theorem C05_more_fragments_never_alter : forall n1 n2 n3 pre post, 0 < n1 -> 0 < n2 -> 0 < n3 ->
+  call_outcome n1 n2 n3 pre = OErr \/ call_outcome n1 n2 n3 (pre ++ post) = call_outcome n1 n2 n3 pre.
+Proof. exact call_outcome_ext. Qed.
+
+(* PREFIX NEVER SUCCESS, ARBITRARY PEER STREAMS.  For ANY byte stream (not only one a writer
+   produced), any message id / message types and EVERY byte offset n at which the stream is
+   cut, half-closed or stalled: the receiving side (frame loop, dispatch by id, fragment
+   parser, reader, three helper reads) does not panic, and its outcome on the first n bytes
+   is an error or is the outcome on the whole stream -- a cut never produces a success and
+   never alters one. *)
+Theorem C05_prefix_never_success_hostile : forall id mt0 mtc n1 n2 n3 stream, 0 < n1 -> 0 < n2 -> 0 < n3 ->
+  bytes_ok stream = true -> forall n,
+  recv_outcome id mt0 mtc n1 n2 n3 (cut_at n stream) <> OPanic /\
+  (recv_outcome id mt0 mtc n1 n2 n3 (cut_at n stream) = OErr \/
+   recv_outcome id mt0 mtc n1 n2 n3 (cut_at n stream) = recv_outcome id mt0 mtc n1 n2 n3 stream).
+Proof. exact hostile_stream_cut. Qed.
+
+(* BUDGETS AGAINST THE SOURCE.  The hand-written handshake deadline is the function go2v
+   regenerates from setInitDeadline on every run; the connect budget is Channel.Connect's
+   context.WithTimeout on a context with a deadline; for every context and connect timeout
+   the dialer's context ends no later than the caller's and the handshake deadline is the
+   dialer context's deadline (5 s from the handshake when there is none). *)
+Theorem C05_init_deadline_generated : forall now od,
+  init_deadline now od =
+  setInitDeadline now (match od with Some _ => true | None => false end) (match od with Some d => d | None => 0 end).
+Proof. exact init_deadline_generated. Qed.
+
+Theorem C05_connect_ctx_deadline : forall now d ct, connect_ctx now (Some d) ct = Some (connect_deadline now d ct).
+Proof. exact connect_ctx_deadline. Qed.
+
+Theorem C05_budget_bounds : forall now now' od ct,
+  (forall d, od = Some d -> exists d', connect_ctx now od ct = Some d' /\ d' <= d /\ handshake_deadline now now' od ct = d') /\
+  (0 < ct -> exists d', connect_ctx now od ct = Some d' /\ d' <= now + ct /\ handshake_deadline now now' od ct = d') /\
+  (od = None -> ct <= 0 -> connect_ctx now od ct = None /\ handshake_deadline now now' od ct = now' + 5000000000).
+Proof. exact budget_bounds. Qed.
+
+(* SUCCESS ON HOSTILE INPUT IS A DENOTATION.  For ANY fragment list that passed the parser: if
+   the caller's three helper reads all succeed, the list splits into the consumed fragments
+   [pre] and an untouched rest; [pre] is a well-formed message (each fragment has a chunk, the
+   more-fragments flag is set on all but the last) whose every checksum verified; and the
+   arguments returned are exactly what [pre] denotes by the protocol document (Spec/FragSpec.v).
+   So a partial, altered or foreign response is reported as success only if it carries
+   valid running checksums over a complete message (C02 bounds how likely that is). *)
+Theorem C05_success_is_denotation : forall n1 n2 n3 fs args, 0 < n1 -> 0 < n2 -> 0 < n3 ->
+  Forall frag_parsed fs -> call_outcome n1 n2 n3 fs = OOk args ->
+  exists pre post c0, fs = pre ++ post /\ wf pre /\ ck_new (first_ctype pre) = Some c0 /\ ck_chain c0 pre /\
+    f_more (last pre dfrag) = false /\ args = denote (chunks_of pre).
+Proof. exact hostile_success_denote. Qed.
+
+(* ... end to end for ARBITRARY peer bytes: the receiving side of a call (frame loop, dispatch
+   by id, fragment parser, reader, helper reads) reports success only with the denotation of a
+   checksum-verified well-formed message among the fragments the stream delivered *)
+Theorem C05_stream_success_is_denotation : forall id mt0 mtc n1 n2 n3 stream args, 0 < n1 -> 0 < n2 -> 0 < n3 ->
+  bytes_ok stream = true -> recv_outcome id mt0 mtc n1 n2 n3 stream = OOk args ->
+  exists pre post c0, delivered id mt0 mtc stream = pre ++ post /\ wf pre /\ ck_new (first_ctype pre) = Some c0 /\
+    ck_chain c0 pre /\ f_more (last pre dfrag) = false /\ args = denote (chunks_of pre).
+Proof. exact hostile_stream_success. Qed.
+
+Print Assumptions C05_success_is_denotation.
+Print Assumptions C05_stream_success_is_denotation.
+Print Assumptions C05_parser_output_parsed.
+Print Assumptions C05_one_outcome.
+Print Assumptions C05_complete_absorbing.
+Print Assumptions C05_more_fragments_never_alter.
+Print Assumptions C05_prefix_never_success_hostile.
+Print Assumptions C05_init_deadline_generated.
+Print Assumptions C05_connect_ctx_deadline.
+Print Assumptions C05_budget_bounds.
+
+(* ---------------- non-vacuity (hostile) ---------------- *)
+(* hostile fragment lists: a forged checksum, a more-flag on the last fragment, a fragment
+   after the last one, a fragment without chunks -- all [frag_parsed]; a script with reads
+   of size 0, 1 and 1000 and stray operations: the trace exists (no panic), errors are
+   sticky, and the reader is Complete only in the one list whose checksums are right *)
+Definition hx_good : list frag := seal (mkCk 1 0) ex_layout.
+Definition hx_forged : list frag :=
+  match hx_good with f :: r => mkFrag (f_more f) (f_ctype f) [1; 2; 3; 4] (f_chunks f) :: r | [] => [] end.
+Definition hx_trailing : list frag := hx_good ++ hx_good.
+Definition hx_nochunks : list frag := [mkFrag false 0 [] []].
+Definition hx_script : list rop :=
+  [RClose; RBegin false; RRead 0; RRead 1; RRead 1000; RClose; RBegin false; RHelper 512; RBegin true; RHelper 7; RBegin true; RRead 3; RClose].
+
+Definition frag_parsedb (f : frag) : bool :=
+  match ck_new (f_ctype f) with None => false | Some _ => zlen (f_ck f) =? ChecksumSize (f_ctype f) end.
+
+Example C05_example_hostile :
+  forallb (fun fs => forallb frag_parsedb fs) [hx_good; hx_forged; hx_trailing; hx_nochunks] = true /\
+  (* the well-formed list read by helpers: success, Complete exactly at the end *)
+  call_outcome 512 512 512 hx_good = OOk [[1;2]; [3;4]; [5;6]] /\
+  (* trailing fragments after a complete message do not alter the success; the forged checksum,
+     and the chunk-less fragment, are errors *)
+  call_outcome 512 512 512 hx_trailing = OOk [[1;2]; [3;4]; [5;6]] /\
+  call_outcome 512 512 512 hx_forged = OErr /\ call_outcome 512 512 512 hx_nochunks = OErr /\
+  (* the stray script never panics on any of them *)
+  forallb (fun fs => match r_trace hx_script (r_init fs) with Some _ => true | None => false end)
+          [hx_good; hx_forged; hx_trailing; hx_nochunks] = true /\
+  (* without the parser's guarantee the model DOES panic (unknown checksum type 9): the premise is needed *)
+  r_trace [RBegin false] (r_init [mkFrag false 9 [] [[1]]]) = None.
+Proof. vm_compute. repeat split; reflexivity. Qed.
+
+(* the success on the list with trailing fragments is the denotation of its verified prefix *)
+Example C05_example_denotation :
+  call_outcome 512 512 512 hx_trailing = OOk (denote (chunks_of hx_good)) /\ hx_trailing = hx_good ++ hx_good /\
+  ck_chain (mkCk 1 0) hx_good /\ denote (chunks_of hx_trailing) <> denote (chunks_of hx_good).
+Proof. split; [vm_compute; reflexivity|]. split; [reflexivity|]. split; [apply seal_chain|]. vm_compute. discriminate. Qed.
+
+(* arbitrary bytes as a peer stream: garbage, and a valid stream with garbage appended, at all offsets *)
+Example C05_example_hostile_stream :
+  let s := ex_stream (mkCk 1 0) ++ [0; 16; 4; 0; 0; 0; 0; 7; 0; 0; 0; 0; 0; 0; 0; 0; 255; 255] in
+  forallb (fun n =>
+    match recv_outcome 7 c_messageTypeCallRes c_messageTypeCallResContinue 512 512 512 (cut_at (Z.of_nat n) s) with
+    | OErr => Z.of_nat n <? zlen (ex_stream (mkCk 1 0))
+    | OOk args => (zlen (ex_stream (mkCk 1 0)) <=? Z.of_nat n) &&
+                  match args with [a1; a2; a3] => bytes_eqb a1 [1;2] && bytes_eqb a2 [3;4] && bytes_eqb a3 [5;6] | _ => false end
+    | OPanic => false
+    end) (seq 0 (S (length s))) = true.
+Proof. vm_compute. reflexivity. Qed.
+
+(* the budget model on concrete numbers: connect timeout below / above the deadline, none *)
+Example C05_example_budget :
+  connect_ctx 10 (Some 300) 100 = Some 110 /\ connect_ctx 10 (Some 300) 1000 = Some 300 /\ connect_ctx 10 (Some 300) 0 = Some 300 /\
+  connect_ctx 10 None 0 = None /\ handshake_deadline 10 12 None 0 = 12 + 5000000000 /\ handshake_deadline 10 12 (Some 300) 100 = 110.
+Proof. vm_compute. repeat split; reflexivity. Qed.
